@@ -404,3 +404,162 @@ Proof.
   destruct (Qeq_bool _ 0) eqn:E0 in HF; [apply Qeq_bool_iff in E0; contradiction|].
   destruct HF as (x & -> & Hx'). exact Hx'.
 Qed.
+
+(* ================================================================== headline statements on the
+   GENERATED definitions *)
+
+(* median: the generated filter_disparity over the generated median_filter over the generated
+   skeleton is the model's filter step at every pixel of the image, hence satisfies the Spec *)
+Theorem gen_median_eq_spec : forall sk rad ds ny nx disp mask,
+  filter_skeleton_ok KNanMedian sk = true -> 0 <= rad ->
+  is2 (ds_disp ds) ny nx disp -> is2 (ds_mask ds) ny nx mask ->
+  let ds' := g_median_filter_disparity (g_median_filter (skel_block_loop sk)) (2 * rad + 1) ds in
+  let out := median_filter_disparity Constants.msk_pixel_invalid (sk_B sk) (2 * rad + 1) ny nx disp mask in
+  ds_mask ds' = ds_mask ds /\ ds_band ds' = ds_band ds /\ is2 (ds_disp ds') ny nx (fst out) /\
+  Spec.Filters.median_step_spec Constants.msk_pixel_invalid rad ny nx disp mask (fst out) (snd out).
+Proof.
+  intros sk rad ds ny nx disp mask Hok Hrad Hd Hm ds' out.
+  destruct (gen_median_filter_disparity_is (g_median_filter (skel_block_loop sk)) (2 * rad + 1) ds ny nx disp mask
+              (Filters.median_filter (sk_B sk) (2 * rad + 1) ny nx) Hd Hm) as (H1 & H2 & H3).
+  { intros D data HD. apply gen_median_filter_is_model; [assumption | lia | assumption]. }
+  split; [exact H1|]. split; [exact H2|]. split; [exact H3|].
+  destruct (SkelFiltersP.filter_loop_params _ sk Hok) as (HB & _).
+  apply median_eq_spec; assumption.
+Qed.
+
+(* the spatial weight of a neighbour depends on its squared distance to the pixel only: the table
+   entry that multiplies pixel (r + dr, c + dc) of the window of (r, c) is ngs sigma (dr^2 + dc^2) *)
+Theorem gen_spatial_weight_radial : forall ngs ss win dr dc,
+  sp_of (gen_sk ngs ss win) (win / 2) dr dc = ngs ss (dr * dr + dc * dc).
+Proof.
+  intros. unfold sp_of, gen_sk. rewrite sqdist_is. f_equal. lia.
+Qed.
+
+Lemma is_wmean_eq : forall m m' terms, (m == m')%Q -> Spec.Filters.is_wmean m' terms -> Spec.Filters.is_wmean m terms.
+Proof. intros m m' terms E [H1 H2]. split; [exact H1|]. rewrite E. exact H2. Qed.
+
+Theorem gen_bilateral_eq_weighted_mean : forall sk ng ngs ss sc ds ny nx disp mask,
+  filter_skeleton_ok KBilateral sk = true -> (0 <= ss)%Q ->
+  let win := win_width ny nx ss in
+  let lo := win / 2 in
+  let hi := win - 1 - lo in
+  1 <= win ->
+  Spec.Filters.kernel_ok (sp_of (gen_sk ngs ss win) lo) (ng sc) lo hi ->
+  is2 (ds_disp ds) ny nx disp -> is2 (ds_mask ds) ny nx mask ->
+  let ds' := g_bilateral_filter_disparity (g_filter_bilateral ng ngs (skel_block_loop sk)) ss sc ds in
+  let disp' := writeback Constants.msk_pixel_invalid disp mask (gen_bil_px ng ngs ss sc ny nx) in
+  ds_mask ds' = ds_mask ds /\ ds_band ds' = ds_band ds /\ is2 (ds_disp ds') ny nx disp' /\
+  Spec.Filters.bilateral_step_spec Constants.msk_pixel_invalid lo hi ny nx (sp_of (gen_sk ngs ss win) lo) (ng sc)
+                                   disp mask disp' mask.
+Proof.
+  intros sk ng ngs ss sc ds ny nx disp mask Hok Hss win lo hi Hwin Hk Hd Hm ds' disp'.
+  destruct (gen_bilateral_filter_disparity_is (g_filter_bilateral ng ngs (skel_block_loop sk)) ss sc ds ny nx disp mask
+              (gen_bil_px ng ngs ss sc ny nx) Hd Hm) as (H1 & H2 & H3).
+  { intros D data HD. apply gen_filter_bilateral_at; assumption. }
+  split; [exact H1|]. split; [exact H2|]. split; [exact H3|].
+  set (inv := Constants.msk_pixel_invalid) in *.
+  set (md := masked_data inv disp mask).
+  assert (Hmd : forall r c, md r c = Spec.Filters.valid_disp inv disp mask r c) by (intros; apply masked_data_valid_disp).
+  destruct (window_reach win Hwin) as (Hlo & Hhi & Hsum & _). fold lo in Hlo, Hhi, Hsum. fold hi in Hhi, Hsum.
+  assert (Hsome : forall r c cv, md r c = Some cv -> disp r c = Some cv).
+  { intros r c cv. unfold md, masked_data. destruct (invalid_px inv (mask r c)); [discriminate | auto]. }
+  unfold Spec.Filters.bilateral_step_spec. split; [reflexivity|]. split; [|split].
+  - intros r c Hnone. unfold disp', writeback. cbv zeta. fold md. rewrite Hmd, Hnone. reflexivity.
+  - intros r c Hnf. unfold disp', writeback. cbv zeta. fold md. apply fits_b_false in Hnf.
+    destruct (md r c) as [cv|] eqn:Ev; cbn [is_none]; [|reflexivity].
+    unfold gen_bil_px. cbv zeta. fold win lo hi. rewrite Ev, Hnf. symmetry. apply Hsome. exact Ev.
+  - intros r c Hf cv Hv. rewrite <- Hmd in Hv. unfold disp', writeback. cbv zeta. fold md. rewrite Hv. cbn [is_none].
+    unfold gen_bil_px. cbv zeta. fold win lo hi. rewrite Hv. apply fits_b_iff in Hf. rewrite Hf.
+    pose proof (bil_formula_model (gen_sk ngs ss win) (ng sc) md win lo (r - lo) (c - lo)) as HF. cbv zeta in HF.
+    replace (r - lo + lo) with r in HF by lia. replace (c - lo + lo) with c in HF by lia. rewrite Hv in HF.
+    assert (Ht : bil_terms (gen_sk ngs ss win) (ng sc) md win (r - lo) (c - lo) cv
+                 = Spec.Filters.win_terms (sp_of (gen_sk ngs ss win) lo) (ng sc) md lo hi r c cv).
+    { rewrite <- bil_terms_as_win_terms. rewrite Hsum. reflexivity. }
+    rewrite Ht in HF.
+    pose proof (win_terms_weight_pos (sp_of (gen_sk ngs ss win) lo) (ng sc) md lo hi r c cv Hlo Hhi Hk Hv) as Hpos.
+    destruct (Qeq_bool _ 0) eqn:E0 in HF; [apply Qeq_bool_iff in E0; rewrite E0 in Hpos; discriminate Hpos|].
+    destruct HF as (x & HFx & Hx).
+    exists x. split; [exact HFx|].
+    rewrite <- (win_terms_ext _ _ md (Spec.Filters.valid_disp inv disp mask)) by (intros; apply Hmd).
+    apply (is_wmean_eq _ _ _ Hx). apply wmean_is_wmean. exact Hpos.
+Qed.
+
+(* ================================================================== median_for_intervals *)
+
+Theorem gen_mfi_filter_disparity_is : forall h hreg fs reg ds,
+  let ds' := g_mfi_filter_disparity h hreg fs reg ds in
+  let i1 := h fs (ds_band ds KInf) in
+  let s1 := h fs (ds_band ds KSup) in
+  ds_disp ds' = ds_disp ds /\ ds_band ds' KAmb = ds_band ds KAmb /\
+  (reg = false -> ds_mask ds' = ds_mask ds /\ ds_band ds' KInf = i1 /\ ds_band ds' KSup = s1) /\
+  (reg = true ->
+     let res := hreg i1 s1 (ds_band ds KAmb) in
+     ds_band ds' KInf = fst (fst res) /\ ds_band ds' KSup = snd (fst res) /\
+     ds_mask ds' = np_setitem_mask_or (ds_mask ds) (snd res) Constants.msk_pixel_interval_regularized).
+Proof.
+  intros h hreg fs reg ds. unfold g_mfi_filter_disparity. cbv zeta. cbn [fold_left]. unfold np_copy.
+  cbn [ds_band ds_set_band ds_disp ds_mask band_eqb].
+  destruct reg.
+  - destruct (hreg (h fs (ds_band ds KInf)) (h fs (ds_band ds KSup)) (ds_band ds KAmb)) as [[i2 s2] rm] eqn:Er.
+    cbn [ds_band ds_set_band ds_set_mask ds_disp ds_mask band_eqb fst snd].
+    repeat split; try reflexivity; intros; discriminate.
+  - cbn [ds_band ds_set_band ds_disp ds_mask band_eqb]. repeat split; try reflexivity; intros; discriminate.
+Qed.
+
+(* with the generated median_filter in the hole: each bound band gets the model's median_filter,
+   and with regularisation only bit 11 of the mask may change, is never cleared and is raised
+   exactly on the regularisation mask (at every pixel of the image) *)
+Theorem gen_mfi_spec : forall sk hreg rad reg ds ny nx disp binf bsup mask,
+  filter_skeleton_ok KNanMedian sk = true -> 0 <= rad ->
+  is2 (ds_disp ds) ny nx disp -> is2 (ds_mask ds) ny nx mask ->
+  is2 (ds_band ds KInf) ny nx binf -> is2 (ds_band ds KSup) ny nx bsup ->
+  let h := g_median_filter (skel_block_loop sk) in
+  let w := 2 * rad + 1 in
+  let ds' := g_mfi_filter_disparity h hreg w reg ds in
+  let i1 := h w (ds_band ds KInf) in
+  let s1 := h w (ds_band ds KSup) in
+  ds_disp ds' = ds_disp ds /\
+  is2 i1 ny nx (Filters.median_filter (sk_B sk) w ny nx binf) /\
+  is2 s1 ny nx (Filters.median_filter (sk_B sk) w ny nx bsup) /\
+  Spec.Filters.median_map_spec rad ny nx binf (Filters.median_filter (sk_B sk) w ny nx binf) /\
+  Spec.Filters.median_map_spec rad ny nx bsup (Filters.median_filter (sk_B sk) w ny nx bsup) /\
+  (reg = false -> ds_mask ds' = ds_mask ds /\ ds_band ds' KInf = i1 /\ ds_band ds' KSup = s1) /\
+  (reg = true ->
+     let res := hreg i1 s1 (ds_band ds KAmb) in
+     ds_band ds' KInf = fst (fst res) /\ ds_band ds' KSup = snd (fst res) /\
+     forall m, is2 (snd res) ny nx m ->
+       is2 (ds_mask ds') ny nx (fun r c => if m r c then Z.lor (mask r c) (2 ^ 11) else mask r c) /\
+       forall r c, 0 <= r < ny -> 0 <= c < nx ->
+         Spec.Filters.only_bit11_raised (mask r c) (elt (ds_mask ds') [r; c])).
+Proof.
+  intros sk hreg rad reg ds ny nx disp binf bsup mask Hok Hrad Hd Hm Hi Hs h w ds' i1 s1.
+  destruct (gen_mfi_filter_disparity_is h hreg w reg ds) as (H1 & _ & H3 & H4).
+  destruct (SkelFiltersP.filter_loop_params _ sk Hok) as (HB & _).
+  split; [exact H1|].
+  split; [apply gen_median_filter_is_model; [assumption | unfold w; lia | assumption]|].
+  split; [apply gen_median_filter_is_model; [assumption | unfold w; lia | assumption]|].
+  split; [apply median_filter_map_spec; assumption|].
+  split; [apply median_filter_map_spec; assumption|].
+  split; [exact H3|].
+  intros Hreg res. destruct (H4 Hreg) as (Ha & Hb & Hc). split; [exact Ha|]. split; [exact Hb|].
+  intros m Hrm. fold ds' in Hc. rewrite Hc.
+  assert (HM : is2 (np_setitem_mask_or (ds_mask ds) (snd res) Constants.msk_pixel_interval_regularized) ny nx
+                   (fun r c => if m r c then Z.lor (mask r c) (2 ^ 11) else mask r c)).
+  { exact (setitem_mask_or_2 _ _ _ _ _ _ _ Hm Hrm). }
+  split; [exact HM|]. intros r c Hr Hc'. destruct HM as (_ & _ & HM). rewrite HM by assumption.
+  destruct (m r c); [apply lor_bit11 | apply only_bit11_refl].
+Qed.
+
+(* ================================================================== normalized_gaussian *)
+
+(* for EVERY positive exponential, every square root positive on positive numbers, every pi > 0 and
+   sigma > 0 the canonical formula is strictly positive: kernel_pos is a consequence of the shape of
+   the formula (the numbers themselves stay data) *)
+Theorem gaussian_formula_pos : forall ex sq pi x sigma,
+  (forall y, 0 < ex y)%Q -> (forall y, 0 < y -> 0 < sq y)%Q -> (0 < pi)%Q -> (0 < sigma)%Q ->
+  (0 < geval ex sq pi x sigma gaussian_formula)%Q.
+Proof.
+  intros ex sq pi x sigma Hex Hsq Hpi Hs. cbn [geval gaussian_formula]. unfold Qdiv at 1.
+  apply Qmult_lt_0_compat; [apply Hex|]. apply Qinv_lt_0_compat.
+  apply Qmult_lt_0_compat; [assumption|]. apply Hsq. apply Qmult_lt_0_compat; [reflexivity | assumption].
+Qed.
